@@ -211,3 +211,31 @@ func Shuffle(r *rand.Rand, clauses [][]int) [][]int {
 	}
 	return res
 }
+
+// PlantedKSAT returns m clauses of k distinct variables over 1..n that are all satisfied by the
+// returned assignment (index v-1): a formula that is satisfiable by construction. The oracle of the
+// trace specification does not trust the generator: it evaluates the witness on the clauses.
+func PlantedKSAT(r *rand.Rand, n, m, k int) ([][]int, []bool) {
+	w := make([]bool, n)
+	for i := range w {
+		w[i] = r.Intn(2) == 0
+	}
+	res := make([][]int, 0, m)
+	for len(res) < m {
+		c := RandClause(r, n, k, true)
+		ok := false
+		for _, l := range c {
+			v := l
+			if v < 0 {
+				v = -v
+			}
+			if w[v-1] == (l > 0) {
+				ok = true
+			}
+		}
+		if ok {
+			res = append(res, c)
+		}
+	}
+	return res, w
+}
